@@ -852,6 +852,41 @@ impl<Event, ExpectBody> RequestBuilder<Event, ExpectBody> {
 //@end
 }
 
+// ------------------------------------------------------------------ C14/C15: the command API's task (command::RequestBuilder::build)
+/// crux_http::command::RequestBuilder, as far as its task looks at it
+pub struct CmdRequestBuilder<ExpectBody> { pub expectation: BoxedExpectation<ExpectBody> }
+/// crux_core::command::CommandContext (opaque here)
+#[verifier::external_body]
+pub struct CmdContext { _p: u8 }
+// ASSUMED (`Command::request_from_shell(operation).into_future(ctx).await`; the constructor is proved in
+// unit X, the continuation in Kani unit A): hands exactly this operation to the shell once and yields
+// the shell's answer, whatever that is
+#[verifier::external_body]
+pub fn shell_request(Tracked(w): Tracked<&mut HW>, operation: HttpRequest, ctx: CmdContext) -> (r: HttpResult)
+    ensures
+        final(w).shell == old(w).shell.push(operation),
+        final(w).shell_answers == old(w).shell_answers.push(r),
+{ unimplemented!() }
+
+//@extract id=command::RequestBuilder::build::task file=crux_http/src/command.rs within="impl<Effect, Event, ExpectBody> RequestBuilder<Effect, Event, ExpectBody>" item="fn build" closure="command::RequestBuilder::new\(" props=C14+C15
+//@expect |$x| async move
+//@sig fn command_build_task<ExpectBody>(Tracked(w): Tracked<&mut HW>, this: CmdRequestBuilder<ExpectBody>, req: Request, $x: CmdContext) -> (r: Result<Response<ExpectBody>>)
+//@contract
+    requires
+        req.body_content() is Ok, // (a body that cannot be read panics here: `expect(..)` - stated, not decided)
+    ensures
+        final(w).shell.len() == old(w).shell.len() + 1 && old(w).shell.is_prefix_of(final(w).shell), // [C14/command-build/exactly-one-request-effect]
+        final(w).shell.last().method@ == method_text(req.method_s()) && final(w).shell.last().url@ == url_text(req.url_s()) && final(w).shell.last().body@ == req.body_content()->Ok_0 && header_pairs(final(w).shell.last().headers@) == req.header_pairs(), // [C14/command-build/what-reaches-the-shell-is-exactly-the-request-the-app-described]
+        final(w).shell_answers.len() == old(w).shell_answers.len() + 1,
+        final(w).shell_answers.last() matches HttpResult::Err(e) ==> r == Err::<Response<ExpectBody>, HttpError>(e), // [C15/command-build/an-error-reported-by-the-shell-is-passed-through-unchanged]
+//@rule X19.captured-self * s/\bself\b/this/
+//@rule X17.await * s/\s*\.await\b//
+//@rule X7.trait-method 1 s/(\w+)\s*\.into_protocol_request\(\)/into_protocol_request(\1)/
+//@rule X6.world 1 s/Command::request_from_shell\((\w+)\)\s*\.into_future\((\w+)\)/shell_request(Tracked(w), \1, \2)/
+//@rule X7.turbofish 1 s/Response::<Vec<u8>>::new\((\w+)\.into\(\)\)/response_new(response_from(\1))/
+//@rule X1.closure-contract 1 closure#\.and_then\(#|$x: Response<Vec<u8>>| -> (d: Result<Response<ExpectBody>>) ensures d == this.expectation.decoded($x) // [C15/command-build/a-classified-response-is-decoded-by-the-body-expectation-exactly-once]\n#
+//@end
+
 } // verus!
 
 fn main() {}
